@@ -338,12 +338,17 @@ pub fn run(seed: u64, count: usize, maxn: usize, mode: &str, out: &mut impl Writ
         }
         "huge" => {
             // Component arrays far above the minimum task length of the parallel loops
-            // (RAYON_MIN_LEN = 100000), too large for the list-based model: the specification
-            // of (par_)sort_by_size - same partition, non-increasing sizes, returned sizes =
-            // compute_sizes() - is evaluated here, in the harness, by linear scans.  An
-            // UNPROVED probe, reported as such (aspect "big").
+            // (RAYON_MIN_LEN = 100000), too large for the list-based model: the arrays and
+            // the returned sizes are printed and judged in the driver by the proved n log n
+            // checker big_check_sort_by_size (aspect "big").  The specification of
+            // (par_)sort_by_size - same partition, non-increasing sizes, returned sizes =
+            // compute_sizes() - is ALSO evaluated here by linear scans (key hverdict): an
+            // unproved verdict the driver compares with its own (aspect "bigagree").
+            // --maxn caps the sizes (never below 200 001: the faults this probe exists for
+            // only appear above 200 000 nodes).
+            let cap = if maxn < 200_001 { 1_000_003 } else { maxn };
             for j in 0..count {
-                let n = [250_003usize, 400_001, 1_000_003][j % 3];
+                let n = [250_003usize, 400_001, 1_000_003][j % 3].min(cap);
                 let k = rng.range(3, 9);
                 // k components of nearly equal sizes in scrambled order
                 let comp: Vec<usize> = (0..n).map(|i| (i * 7 + i / 3) % k).collect();
@@ -354,14 +359,17 @@ pub fn run(seed: u64, count: usize, maxn: usize, mode: &str, out: &mut impl Writ
                         let sz = if par { pools.get(t).install(|| s2.par_sort_by_size()) } else { s2.sort_by_size() };
                         (sz, s2)
                     }));
-                    let v = match r {
-                        Err(m) => format!("FAIL(panic:{})", sanitize(&m)),
+                    let (status, v, data) = match r {
+                        Err(m) => { let s = format!("panic:{}", sanitize(&m)); (s.clone(), format!("FAIL({s})"), "new= sizes= csizes=".to_string()) }
                         Ok((sz, s2)) => {
                             let new = s2.components();
+                            let csz = s2.compute_sizes();
                             let mut real = vec![0usize; k];
                             let mut map = vec![usize::MAX; k];
                             let mut bad: Option<String> = None;
+                            if new.len() != n { bad = Some("length".into()); }
                             for i in 0..n {
+                                if bad.is_some() { break; }
                                 if new[i] >= k { bad = Some(format!("label-out-of-range:node{i}")); break; }
                                 real[new[i]] += 1;
                                 if map[comp[i]] == usize::MAX { map[comp[i]] = new[i]; }
@@ -372,12 +380,14 @@ pub fn run(seed: u64, count: usize, maxn: usize, mode: &str, out: &mut impl Writ
                                 if m2.len() != k { bad = Some("components-merged".into()); }
                                 else if real.windows(2).any(|w| w[0] < w[1]) { bad = Some(format!("sizes-not-non-increasing:{}", fmt_ints(&real))); }
                                 else if sz.to_vec() != real { bad = Some(format!("returned-sizes:{}vs{}", fmt_ints(&sz), fmt_ints(&real))); }
-                                else if s2.compute_sizes().to_vec() != real { bad = Some("compute_sizes".into()); }
+                                else if csz.to_vec() != real { bad = Some("compute_sizes".into()); }
                             }
-                            match bad { None => "ok".to_string(), Some(b) => format!("FAIL({b})") }
+                            let v = match bad { None => "ok".to_string(), Some(b) => format!("FAIL({b})") };
+                            ("ok".to_string(), v, format!("new={} sizes={} csizes={}", fmt_ints(new), fmt_ints(&sz), fmt_ints(&csz)))
                         }
                     };
-                    writeln!(out, "sccbig id=h{j}{} kind=huge n={n} k={k} par={} t={t} verdict={v}", if par { "p" } else { "s" }, par as u8).unwrap();
+                    writeln!(out, "sccbig id=h{j}{} kind=huge n={n} k={k} par={} t={t} status={status} hverdict={v} old={} {data}",
+                        if par { "p" } else { "s" }, par as u8, fmt_ints(&comp)).unwrap();
                 }
             }
         }
